@@ -110,7 +110,7 @@ def def_task(t):
         if tag_syms:
             t0 = tag_syms[-1]
             sig.append(t0[:2] + t0[2:].upper() if len(t0) > 2 else t0.upper())
-        sig += sorted(set(param_syms)) + [":foreign", "STR", "LIST1", "NUM", "ML"]
+        sig += sorted(set(param_syms)) + [":foreign", "STR", "LIST1", "LISTDUP", "NUM", "ML"]
         prefix = ("require", '"%s"' % EXT, ";") if ext else ()
         if role == "test":
             prefix = prefix + ("if", ident)
